@@ -376,6 +376,79 @@ func runC15(cfg Config) {
 			}
 		}
 	}
+	// uploads into real local stores with write verification on: whatever the store holds afterwards under a
+	// chunk name must decode and hash to that name (also for the all-zero ID, which `Chunk.ID()` yields for
+	// undecodable data)
+	for _, comp := range []bool{true, false} {
+		sdir := filepath.Join(base, "store", fmt.Sprintf("up-%v", comp))
+		os.MkdirAll(sdir, 0755)
+		st, _ := desync.NewLocalStore(sdir, desync.StoreOptions{Uncompressed: !comp})
+		var conv desync.Converters
+		ext := ""
+		if comp {
+			conv = desync.Converters{desync.Compressor{}}
+			ext = ".cacnk"
+		}
+		h := desync.NewHTTPHandler(st, true, false, conv, "")
+		for it := 0; it < cfg.N(120, 3000); it++ {
+			data := randBytes(rng, 1+rng.Intn(60))
+			id := desync.Digest.Sum(data)
+			body := data
+			if comp {
+				body, _ = desync.Compress(data)
+			}
+			kind := "good"
+			switch rng.Intn(6) {
+			case 0:
+				body = append([]byte{}, body...)
+				body[rng.Intn(len(body))] ^= 0x20
+				kind = "corrupt"
+			case 1:
+				id = desync.ChunkID{}
+				body = randBytes(rng, 1+rng.Intn(40))
+				kind = "zero-id-garbage"
+			case 2:
+				id = desync.ChunkID{}
+				kind = "zero-id-valid-body"
+			case 3:
+				body = body[:len(body)/2]
+				kind = "truncated"
+			}
+			sid := hx(id[:])
+			p := "/" + sid[:4] + "/" + sid + ext
+			req := httptest.NewRequest("PUT", p, bytes.NewReader(body))
+			w := httptest.NewRecorder()
+			guard(func() string { h.ServeHTTP(w, req); return "" })
+			line := fmt.Sprintf("disk-put comp=%v kind=%s id=%s body=%s -> %d", comp, kind, sid, hx(body), w.Code)
+			rep.Count(line, true, "disk-put:"+kind, fmt.Sprintf("disk-put-status:%d", w.Code))
+			filepath.Walk(sdir, func(fp string, info os.FileInfo, err error) error {
+				if err != nil || info.IsDir() {
+					return nil
+				}
+				name := strings.TrimSuffix(filepath.Base(fp), ext)
+				raw, _ := os.ReadFile(fp)
+				plain := raw
+				if comp {
+					d, derr := desync.Decompress(nil, raw)
+					if derr != nil {
+						monitor("write verification is on, yet the store holds a chunk file that does not decode: "+filepath.Base(fp), line, "")
+						os.Remove(fp)
+						return nil
+					}
+					plain = d
+				}
+				if sum := desync.Digest.Sum(plain); hx(sum[:]) != name {
+					monitor("write verification is on, yet the store holds a chunk file whose content does not hash to its name: "+filepath.Base(fp), line, "")
+					os.Remove(fp)
+				}
+				return nil
+			})
+			if kind == "good" && w.Code/100 != 2 {
+				monitor(fmt.Sprintf("a correct upload was refused with status %d", w.Code), line, "")
+			}
+		}
+		os.RemoveAll(sdir)
+	}
 	ents, _ := os.ReadDir(base)
 	if len(ents) != 3 {
 		monitor(fmt.Sprintf("unexpected entries next to the served stores: %d", len(ents)), "disk", "")
